@@ -3,6 +3,7 @@ package sys
 import (
 	"fmt"
 	"sync"
+	"time"
 
 	"github.com/pion/rtcp"
 	"github.com/pion/rtp"
@@ -16,7 +17,8 @@ import (
 
 // CB is one recorded handler callback.
 type CB struct {
-	G       uint64 // global sequence number
+	G       uint64        // global sequence number
+	T       time.Duration // simulated time since the start of the run
 	Kind    string // conn.open, conn.close, session.open, session.close, describe, announce, setup, play, record, pause, getparam, setparam, request, response, lost, decode_error, write_error, rtp, rtcp
 	Conn    *gortsplib.ServerConn
 	Session *gortsplib.ServerSession
@@ -66,6 +68,7 @@ func NewHandler(w *World) *Handler {
 
 func (h *Handler) add(cb CB) {
 	cb.G = h.W.Log.NextG()
+	cb.T = time.Since(h.W.Log.Start())
 	h.mu.Lock()
 	h.CBs = append(h.CBs, cb)
 	h.mu.Unlock()
